@@ -327,7 +327,9 @@ def oracle(obs, bind_mode):
             if k > 1:
                 return f'bind response {e[2][:16].hex()} on connection {e[1]} handed to the received hook {k} times'
             wrote_later = any(x[0] == 'write' and x[1] == e[1] and x[3] > e[3] for x in log)
-            if k == 0 and (wrote_later or e[1] == obs.get('bad_bind_conn')):
+            # the run ends at its horizon: a response fed in its last half second may simply not have been read any more
+            t_end = max([x[0] for x in obs.get('states', [])] + [0.0])
+            if k == 0 and (wrote_later or (e[1] == obs.get('bad_bind_conn') and e[3] <= t_end - 0.5)):
                 return f'bind response {e[2].hex()[:60]} on connection {e[1]} was read but never handed to the received hook'
     # (e) state corresponds to the mode whenever the session is bound
     for t, st, bound in obs['states']:
